@@ -16,7 +16,9 @@ package ws
 // Oracle (ORACLE FAIL C07 tunnel-*): bytes received == bytes sent (length and sha256) in both
 // directions; after closing either end the other end's Read fails (EOF / closed) within 2 s;
 // after all connections are closed the goroutine count returns to the level measured before
-// they were opened (no leaked relay legs).
+// they were opened (no leaked relay legs).  Half of the far ends do NOT close after seeing
+// end-of-stream (an upstream that ignores EOF, e.g. a push-only feed): the legs must be released all
+// the same (goroutine level; a later write on the far end fails) - seed C07c.
 
 import (
 	"bufio"
@@ -27,7 +29,9 @@ import (
 	"math/rand"
 	"net"
 	"net/url"
+	"os"
 	"runtime"
+	"runtime/pprof"
 	"sync"
 	"sync/atomic"
 	"time"
@@ -253,6 +257,13 @@ func (t *tunnel) run(topo string, seed int64, conns, maxBytes int, o *Out) strin
 
 	var wg sync.WaitGroup
 	var mu sync.Mutex
+	type heldConn struct {
+		c     net.Conn
+		i     int
+		name  string
+		write bool
+	}
+	var held []heldConn
 	fail := func(clause, detail string) {
 		mu.Lock()
 		o.Fail("C07", clause, detail)
@@ -307,6 +318,14 @@ func (t *tunnel) run(topo string, seed int64, conns, maxBytes int, o *Out) strin
 		da, db := randBytes(r, sa), randBytes(r, sb)
 		seeds := [4]int64{r.Int63(), r.Int63(), r.Int63(), r.Int63()}
 		closeA := r.Intn(2) == 0
+		// leave the far end open after it saw end-of-stream?  Only where the far end is a plain TCP
+		// connection of the agent's tcpproxy / the forwarder (f1, f2): those relays close their TCP leg
+		// outright.  Where the far end is a yamux stream or the dialer's websocket (d1, d2) the release
+		// of the server's leg waits for the far end's own close, bounded by yamux's StreamCloseTimeout
+		// (a locally closed yamux stream stays readable) and, across nodes, by httputil.ReverseProxy's
+		// half-close propagation - observation O8, library semantics.
+		hold := r.Intn(2) == 0 && (topo == "f1" || topo == "f2")
+		holdWrite := hold
 		i, p := i, p
 		_ = p.a.SetDeadline(time.Now().Add(40 * time.Second))
 		_ = p.b.SetDeadline(time.Now().Add(40 * time.Second))
@@ -362,11 +381,24 @@ func (t *tunnel) run(topo string, seed int64, conns, maxBytes int, o *Out) strin
 			} else if ne, ok := err.(net.Error); ok && ne.Timeout() {
 				fail("tunnel-close", fmt.Sprintf("%s conn %d: after closing end %s the other end saw no end-of-stream within %v", topo, i, name, time.Since(t0).Round(time.Millisecond)))
 			}
+			if hold && err != nil {
+				// the end that saw end-of-stream does NOT close: both legs must be released anyway
+				mu.Lock()
+				held = append(held, heldConn{other, i, name, holdWrite})
+				mu.Unlock()
+				return
+			}
 			_ = other.Close()
 		}()
 	}
 	wg.Wait()
 	o.Add("tunnel:conns", len(pairs))
+	o.Add("tunnel:held", len(held))
+	defer func() {
+		for _, h := range held {
+			_ = h.c.Close()
+		}
+	}()
 
 	// no leaked legs: the goroutine count returns to the level before the connections
 	dl := time.Now().Add(2 * time.Second)
@@ -376,10 +408,31 @@ func (t *tunnel) run(topo string, seed int64, conns, maxBytes int, o *Out) strin
 			break
 		}
 		if time.Now().After(dl) {
-			fail("tunnel-leak", fmt.Sprintf("%s: %d goroutines before the connections, %d two seconds after closing all %d of them", topo, base, n, len(pairs)))
+			fail("tunnel-leak", fmt.Sprintf("%s: %d goroutines before the connections, %d two seconds after closing all %d of them (%d far ends saw end-of-stream and were left open)", topo, base, n, len(pairs), len(held)))
+			if os.Getenv("VERIF_DEBUG") != "" {
+				_ = pprof.Lookup("goroutine").WriteTo(os.Stderr, 1)
+			}
 			break
 		}
 		time.Sleep(10 * time.Millisecond)
+	}
+	// a far end that was left open after seeing end-of-stream must find its leg gone: writes fail
+	for _, h := range held {
+		if !h.write {
+			continue
+		}
+		_ = h.c.SetWriteDeadline(time.Now().Add(3 * time.Second))
+		t0 := time.Now()
+		var werr error
+		for time.Since(t0) < 2*time.Second && werr == nil {
+			_, werr = h.c.Write([]byte{0})
+			if werr == nil {
+				time.Sleep(20 * time.Millisecond)
+			}
+		}
+		if werr == nil {
+			fail("tunnel-close-not-released", fmt.Sprintf("%s conn %d: two seconds after end %s was closed the other end (left open) can still write: its leg was not released", topo, h.i, h.name))
+		}
 	}
 	return ""
 }
